@@ -202,6 +202,12 @@ def _find_first_spdx_comment(
     indices = _indices_of_newlines(text)
 
     for index in indices:
+        # What is inside of an ignore block is not a header, and replacing a
+        # part of the block would leave the block open.
+        if text.rfind("REUSE-IgnoreStart", 0, index) > text.rfind(
+            "REUSE-IgnoreEnd", 0, index
+        ):
+            continue
         try:
             comment = style.comment_at_first_character(text[index:])
         except CommentParseError:
